@@ -1,15 +1,50 @@
 """C12 - LRUSet / LRUMap vs a reference recency list."""
 
-# the driver's sanitizer options plus a bounded quarantine: the per-block LeakSanitizer pass walks every chunk the
-# allocator still holds, and with the default 256 MB quarantine that pass grows to ~0.4 s
+# the driver's sanitizer options plus a bounded quarantine: a LeakSanitizer pass walks every chunk the allocator still
+# holds, and with the default 256 MB quarantine such a pass grows to ~0.4 s in a long-running shard
 _ASAN = ("abort_on_error=0:exitcode=97:detect_leaks=1:allocator_may_return_null=1:detect_stack_use_after_return=0:"
          "handle_abort=1:symbolize=1:max_allocation_size_mb=4096:quarantine_size_mb=16")
+_DEPS = ["harness/c12/lru_harness.hh", "harness/c12/alloc_balance.hh"]
 
 PROP = dict(
     level="exploration",
     stages=[
-        dict(name="c12_lru", src="harness/c12_lru.cc", deps=["harness/c12/lru_harness.hh"], env={"ASAN_OPTIONS": _ASAN},
+        # LRUSet<int64>, LRUSet<string>, LRUMap<int64,int64>, LRUMap<string,string>: exhaustive short histories + rapidcheck
+        dict(name="c12_lru", src="harness/c12_lru.cc", deps=_DEPS, env={"ASAN_OPTIONS": _ASAN},
+             shards_quick=8, shards_thorough=16, timeout_quick=400, timeout_thorough=2400),
+        # compile probes for LRUMap::insert(const K&, const V&) / at() const (a probe that does not compile is a
+        # violation `compile/<member>`), then the same harness with those members in the operation alphabet
+        dict(name="c12_gated", kind="pydriver", driver="oracle/c12_gated.py", env={"ASAN_OPTIONS": _ASAN},
              shards_quick=8, shards_thorough=16, timeout_quick=400, timeout_thorough=2400),
     ],
-    rule="tbd", assumptions=[], min_evaluations_quick=1000, technique="tbd", level_text="tbd", level_note="tbd",
+    rule=("A case is a whole operation history on two instances (A, B) of one container type; after every operation both "
+          "instances are compared with two std::list recency models (return value new/existing, size() = sum of sizes, count(), "
+          "peek()/item_size()/at() values, a read-only walk of head/tail/prev/next/key against the model order) and at the end "
+          "both are drained by evict_object(), which must replay the model order. Exhaustive: every history of length 1..L over "
+          "an operation alphabet on 3 keys (insert/emplace/erase/touch/evict/swap [+ at, change_size without touch for the map]; "
+          "extended alphabet adds size-0 inserts, touch with a new size, change_size, clear), complete up to L=4 (quick) / 5 "
+          "(thorough) and up to L=6/7 minus the histories that hold a throwing no-op (absent-key touch/change_size/lookup, evict "
+          "on empty) before their last operation, which are state-equivalent to a shorter enumerated history (counted under "
+          "`excluded`). Random: rapidcheck histories of 1..400 operations over 1..8 (sometimes 40) keys, sizes {0,1,2,7}, "
+          "new_size {-1,0,1,2,7}, operations on both instances and swaps between them. Non-trivial: a history in which, with >= 2 "
+          "live keys, an operation moved an existing key to the front from a non-front position and a later erase or eviction "
+          "succeeded. Distinct = distinct histories (hash of the operation words per container type)."),
+    assumptions=["single-threaded use", "sizes small enough that total_size does not overflow size_t",
+                 "evict_object()/peek() on an empty container and at()/item_size() of an absent key throw std::out_of_range (what the code documents); no other behaviour is specified for them",
+                 "emplace on an existing key changes nothing (value, size and recency stay), like std::unordered_map::emplace",
+                 "the exhaustive enumerator compares the full state only after the last operation of each history: the state after "
+                 "every proper prefix is compared when that shorter history is enumerated (deterministic container); return values "
+                 "are compared at every step"],
+    min_evaluations_quick=200000,
+    engine="rapidcheck + exhaustive enumerators",
+    technique=("model-based stateful testing: exhaustive small-scope enumeration of operation histories + rapidcheck random "
+               "histories against a std::list recency model, with structural link walk, ASan/UBSan and per-history heap-block "
+               "balance + LeakSanitizer; compile probes for never-instantiated members"),
+    level_text=("Exploration: every history runs the real templates (ASan+UBSan build of the working tree) side by side with a "
+                "reference recency list; all histories up to the stated lengths over 3 keys are enumerated, longer ones over up to "
+                "40 keys are sampled. It finds any mis-linked pointer, stale tail, wrong size accounting, wrong recency rule, "
+                "use-after-free or leak that has a witness in those scopes; it is not a proof for arbitrary lengths or key types."),
+    level_note=("Trusts the compiler, libstdc++ (std::list model, std::unordered_map under the containers), AddressSanitizer/LeakSanitizer "
+                "and the harness's reading of which operations refresh recency (LRUSet: insert/emplace/touch; LRUMap: insert, "
+                "emplace of a new key, at, touch, change_size(touch=true))."),
 )
